@@ -82,4 +82,36 @@ example : tip_leave (tot exRec) (fun _ c => exElen c) 11 (rangeI 5) exPids 2 1 [
 -- a handle outside the table raises (outside the theorems' domain)
 example : tip_leave (tot exRec) (fun _ c => exElen c) 11 (rangeI 5) exPids 2 1 [some (0, 9), some (0, 3)] [] = none := by decide +kernel
 
+/-! ## `to_subtree_impl` (tree_utils_impl.py): the gather of every column by the kept rows
+
+The tree and the returned `ndata` dictionary are their column variables (`id`, `pid`, `type` and `x`, the latter over a type parameter standing
+for every further attribute column: the comprehension `{k: swc_like.get_ndata(k)[mapping].copy() for k in swc_like.keys()}` is translated
+column by column); `source` / `names` are opaque values; `out_mapping` is a list. -/
+
+/-- the translated `to_subtree_impl` on a marked topology over a tree with `N` rows: the model's compaction (`KeyError` exactly when the model
+fails), ids `0..k−1`, the model's parents, every further column gathered at the kept rows in order, `out_mapping` = the mapping, `source` /
+`names` handed on, input columns unchanged -/
+theorem generated_toSubtreeImpl_eq_model {A Src Nm : Type} [Inhabited A] [Inhabited Src] [Inhabited Nm]
+    (N : Nat) (ids pids types : List Int) (xs : List A) (src : Src) (nm : Nm) (subId subPid out0 : List Int)
+    (h1 : ids.length = N) (h2 : pids.length = N) (h3 : types.length = N) (h4 : xs.length = N)
+    (hl : subId.length = subPid.length)
+    (hnd : (((List.zip subId subPid).filter (fun ip => !decide (ip.1 = -2))).map (·.1)).Nodup)
+    (hin : ∀ i ∈ subId, i ≠ REMOVAL → 0 ≤ i ∧ i.toNat < N) :
+    to_subtree_impl ids pids types xs src nm (subId, subPid) out0 =
+      (toSubTopology subId subPid).map fun r =>
+        (r.mapping, ids, pids, types, xs,
+          ((r.mapping.length : Int), (Py.range (r.mapping.length : Int), r.newPid, takeRows types r.mapping, takeRows xs r.mapping), src, nm)) :=
+  toSubtreeImpl_refines N ids pids types xs src nm subId subPid out0 h1 h2 h3 h4 hl hnd hin
+
+
+-- non-vacuity: row 2 (marked) is dropped; `out_mapping` [7, 7] is cleared first; a kept row whose parent was dropped raises (KeyError)
+def exImpl := to_subtree_impl (A := String) (rangeI 5) exPids [1, 3, 2, 3, 3] ["a", "b", "c", "d", "e"] "file.swc" (0 : Nat) ([0, 1, -2, 3, 4], exPids) [7, 7]
+example : exImpl.map (fun r => (r.1, r.2.2.2.2.2.1)) = some ([0, 1, 3, 4], 4) := by decide +kernel
+example : exImpl.map (fun r => r.2.2.2.2.2.2.1) = some ([0, 1, 2, 3], [-1, 0, 1, 0], [1, 3, 3, 3], ["a", "b", "d", "e"]) := by decide +kernel
+example : exImpl.map (fun r => (r.2.1, r.2.2.1, r.2.2.2.1, r.2.2.2.2.1)) = some (rangeI 5, exPids, [1, 3, 2, 3, 3], ["a", "b", "c", "d", "e"]) := by
+  decide +kernel
+example : exImpl.map (fun r => r.2.2.2.2.2.2.2) = some ("file.swc", 0) := by decide +kernel
+example : to_subtree_impl (A := String) (rangeI 5) exPids [1, 3, 2, 3, 3] ["a", "b", "c", "d", "e"] "file.swc" (0 : Nat) ([0, -2, 2, 3, 4], exPids) [] = none := by
+  decide +kernel
+
 end C06
